@@ -1,4 +1,876 @@
+(* C03 - proofs about the chain-validation model (fx = true: the repaired code). *)
 From Coq Require Import List ZArith NArith Bool Lia.
 From MV Require Import Gen.Consts Gen.ConstsChain Chain.ChainModel Chain.ChainSpec.
 Import ListNotations.
-Lemma stub : True. Proof. exact I. Qed.
+
+(* ------------------------------------------------------------------------------------------ *)
+(* facts about the generated constants that the proofs rely on (re-checked on every build: a
+   renumbering in the headers that breaks one of them breaks the theorems, not silently the model) *)
+Lemma pass_nonzero : c_PS_CERT_AUTH_PASS <> 0%Z. Proof. discriminate. Qed.
+Lemma ext_nonzero : c_PS_CERT_AUTH_FAIL_EXTENSION <> 0%Z. Proof. discriminate. Qed.
+Lemma authkey_nonzero : c_PS_CERT_AUTH_FAIL_AUTHKEY <> 0%Z. Proof. discriminate. Qed.
+Lemma ext_not_pass : c_PS_CERT_AUTH_FAIL_EXTENSION <> c_PS_CERT_AUTH_PASS. Proof. discriminate. Qed.
+Lemma authkey_not_pass : c_PS_CERT_AUTH_FAIL_AUTHKEY <> c_PS_CERT_AUTH_PASS. Proof. discriminate. Qed.
+Lemma pathlen_not_pass : c_PS_CERT_AUTH_FAIL_PATH_LEN <> c_PS_CERT_AUTH_PASS. Proof. discriminate. Qed.
+Lemma success_zero : c_PS_SUCCESS = 0%Z. Proof. reflexivity. Qed.
+
+Ltac bdestr X :=
+  let H := fresh "B" in
+  destruct X eqn:H.
+
+(* turn boolean comparisons in the context into propositions *)
+Ltac b2p :=
+  repeat match goal with
+  | H : (_ =? _)%Z = true |- _ => apply Z.eqb_eq in H
+  | H : (_ =? _)%Z = false |- _ => apply Z.eqb_neq in H
+  | H : (_ =? _)%N = true |- _ => apply N.eqb_eq in H
+  | H : (_ =? _)%N = false |- _ => apply N.eqb_neq in H
+  | H : (_ <? _)%Z = true |- _ => apply Z.ltb_lt in H
+  | H : (_ <? _)%Z = false |- _ => apply Z.ltb_ge in H
+  | H : (_ >? _)%Z = true |- _ => rewrite Z.gtb_ltb in H; apply Z.ltb_lt in H
+  | H : (_ >? _)%Z = false |- _ => rewrite Z.gtb_ltb in H; apply Z.ltb_ge in H
+  | H : (_ >=? _)%Z = true |- _ => rewrite Z.geb_leb in H; apply Z.leb_le in H
+  | H : (_ >=? _)%Z = false |- _ => rewrite Z.geb_leb in H; apply Z.leb_gt in H
+  | H : (_ <? _)%N = true |- _ => apply N.ltb_lt in H
+  | H : (_ <? _)%N = false |- _ => apply N.ltb_ge in H
+  | H : negb _ = true |- _ => apply negb_true_iff in H
+  | H : negb _ = false |- _ => apply negb_false_iff in H
+  | H : (_ && _)%bool = true |- _ => apply andb_true_iff in H; destruct H
+  | H : (_ || _)%bool = false |- _ => apply orb_false_iff in H; destruct H
+  end.
+
+Section Proofs.
+Variable sig_ok : N -> N -> N -> N -> bool.
+
+Notation DATE := n_PS_CERT_AUTH_FAIL_DATE_FLAG.
+Notation PASS := c_PS_CERT_AUTH_PASS.
+Definition date_clear (c : cert) : Prop := has_flag (c_fl0 c) DATE = false.
+Definition is_pass (s : cst) : Prop := st s = PASS.
+
+(* ------------------------------------------------------------------------------------------ *)
+(* the tail: PASS exactly when nothing was recorded and the DATE flag is clear *)
+Lemma tail_pass : forall s, st (tail s) = PASS -> st s <> PASS -> st s = 0%Z /\ has_flag (fl s) DATE = false.
+Proof.
+  intros s H Hn. unfold tail in H.
+  destruct (st s =? 0)%Z eqn:B.
+  - destruct (has_flag (fl s) DATE) eqn:D; cbn [andb] in H.
+    + cbn in H. discriminate H.
+    + rewrite B in H. cbn in H. apply Z.eqb_eq in B. auto.
+  - cbn [andb] in H. rewrite B in H. contradiction.
+Qed.
+
+Lemma tail_fl : forall s, fl (tail s) = fl s.
+Proof.
+  intros s. unfold tail. destruct ((st s =? 0)%Z && has_flag (fl s) DATE).
+  - destruct (st (set_st s c_PS_CERT_AUTH_FAIL_EXTENSION) =? 0)%Z; reflexivity.
+  - destruct (st s =? 0)%Z; reflexivity.
+Qed.
+
+Lemma tail_nonzero : forall s, st s <> 0%Z -> tail s = s.
+Proof.
+  intros s H. unfold tail. apply Z.eqb_neq in H. rewrite H. cbn [andb]. rewrite H. reflexivity.
+Qed.
+
+Lemma tail_clean : forall s, st s = 0%Z -> has_flag (fl s) DATE = false -> tail s = set_st s PASS.
+Proof.
+  intros s H0 Hd. unfold tail. rewrite H0, Hd. cbn. rewrite H0. reflexivity.
+Qed.
+
+Lemma aki_check_cases : forall sc ic s, aki_check sc ic s = s \/ aki_check sc ic s = set_st s c_PS_CERT_AUTH_FAIL_AUTHKEY.
+Proof.
+  intros. unfold aki_check.
+  repeat match goal with |- context[if ?b then _ else _] => destruct b end; auto.
+Qed.
+
+Lemma ku_check_cases : forall ic s r s2, ku_check ic s = (r, s2) ->
+  (r = None /\ s2 = s /\ ((N.land (c_ku ic) n_KEY_USAGE_KEY_CERT_SIGN <> 0)%N \/ (c_ku ic = 0%N /\ (0 < c_pre3280 ic)%Z))) \/
+  (r = None /\ st s2 = c_PS_CERT_AUTH_FAIL_EXTENSION) \/
+  (r = Some c_PS_PARSE_FAIL /\ s2 = s).
+Proof.
+  intros ic s r s2 H. unfold ku_check in H.
+  bdestr (N.land (c_ku ic) n_KEY_USAGE_KEY_CERT_SIGN =? 0)%N; b2p.
+  - bdestr (c_ku ic =? 0)%N; b2p.
+    + bdestr (c_pre3280 ic =? 0)%Z; b2p.
+      * inversion H; subst. right; left. auto.
+      * bdestr (c_pre3280 ic <? 0)%Z; b2p; inversion H; subst.
+        -- right; right; auto.
+        -- left. repeat split; auto. right. split; auto. lia.
+    + cbn in H. inversion H; subst. right; left; auto.
+  - inversion H; subst. left. auto.
+Qed.
+
+(* flags never change on a path that returns early; the status only moves away from 0 *)
+Lemma auth_one_some_fl : forall fx self sc ic s rc s', auth_one sig_ok fx self sc ic s = (Some rc, s') -> fl s' = fl s.
+Proof.
+  intros fx self sc ic s rc s' H. unfold auth_one in H.
+  repeat match type of H with
+  | context[if ?b then _ else _] => destruct b
+  end; try (inversion H; subst; reflexivity).
+  destruct (ku_check ic (aki_check sc ic s)) as [r s2] eqn:K.
+  destruct r; inversion H; subst.
+  apply ku_check_cases in K. destruct K as [[K _]|[[K _]|[_ K]]]; try discriminate K.
+  subst. destruct (aki_check_cases sc ic s) as [E|E]; rewrite E; reflexivity.
+Qed.
+
+(* every early return carries a negative code other than PS_MEM_FAIL *)
+Lemma auth_one_some_neg : forall fx self sc ic s rc s', auth_one sig_ok fx self sc ic s = (Some rc, s') ->
+  (rc < 0)%Z /\ rc <> c_PS_MEM_FAIL.
+Proof.
+  intros fx self sc ic s rc s' H. unfold auth_one in H.
+  repeat match type of H with
+  | context[if ?b then _ else _] => destruct b
+  end; try discriminate H; try (inversion H; subst; split; [reflexivity|discriminate]).
+  destruct (ku_check ic (aki_check sc ic s)) as [r s2] eqn:K.
+  destruct r; inversion H; subst.
+  apply ku_check_cases in K. destruct K as [[K _]|[[K _]|[K _]]]; try discriminate K.
+  inversion K; subst. split; [reflexivity|discriminate].
+Qed.
+
+(* ------------------------------------------------------------------------------------------ *)
+(* soundness of one authentication step (repaired code) *)
+Lemma auth_one_pass : forall self sc ic s s',
+  auth_one sig_ok true self sc ic s = (None, s') -> st s = 0%Z -> st s' = PASS ->
+  has_flag (fl s) DATE = false /\ fl s' = fl s /\
+  (self = false -> parsed ic -> is_ca ic) /\
+  ((c_iss sc = c_subj ic /\ sig_ok (c_key ic) (c_tbs sc) (c_sig sc) (c_alg sc) = true /\
+    ku_certsign ic /\ not_revoked sc) \/
+   (self = false /\ same_cert sc ic)).
+Proof.
+  intros self sc ic s s' H H0 HP. unfold auth_one in H.
+  assert (Hne : st s <> PASS) by (rewrite H0; intro X; symmetry in X; exact (pass_nonzero X)).
+  bdestr ((c_ver ic >? 1)%Z && negb (c_ca ic =? c_CA_TRUE)%Z && negb self); [inversion H|].
+  assert (CA : self = false -> parsed ic -> is_ca ic).
+  { intros Hs Hp. unfold parsed in Hp. unfold is_ca. subst self.
+    rewrite Hp in B. cbn in B. rewrite andb_true_r in B. b2p. exact B. }
+  bdestr (negb (c_iss sc =? c_subj ic)%N).
+  - (* names differ: only the same-certificate shortcut gets through *)
+    bdestr (shortcut true self sc ic); inversion H; subst.
+    apply tail_pass in HP; auto. destruct HP as [_ HD].
+    rewrite tail_fl. repeat split; auto.
+    right. unfold shortcut in B1. b2p. split; [auto|]. split; auto.
+  - b2p.
+    bdestr (f_USE_CRL && (c_rev sc =? c_CRL_CHECK_REVOKED_AND_AUTHENTICATED)%Z); [inversion H|].
+    bdestr (negb (sig_ok (c_key ic) (c_tbs sc) (c_sig sc) (c_alg sc))); [inversion H|].
+    b2p.
+    destruct (ku_check ic (aki_check sc ic s)) as [r s2] eqn:K.
+    destruct r; inversion H; subst. clear H.
+    apply ku_check_cases in K. destruct K as [[_ [K1 K2]]|[[_ K]|[K _]]]; try discriminate K.
+    + subst s2.
+      destruct (aki_check_cases sc ic s) as [E|E]; rewrite E in *.
+      * apply tail_pass in HP; auto. destruct HP as [_ HD].
+        rewrite tail_fl. repeat split; auto.
+        left. repeat split; auto.
+        -- unfold ku_certsign. intros Hk. destruct K2 as [K2|[K2 _]]; [exact K2|contradiction].
+        -- unfold not_revoked. cbn in B1. b2p. exact B1.
+      * exfalso. rewrite tail_nonzero in HP by (cbn; exact authkey_nonzero).
+        exact (authkey_not_pass HP).
+    + exfalso. rewrite tail_nonzero in HP by (rewrite K; exact ext_nonzero).
+      rewrite K in HP. exact (ext_not_pass HP).
+Qed.
+
+(* what a fall-through (return code 0) alone guarantees *)
+Lemma auth_one_none : forall self sc ic s s',
+  auth_one sig_ok true self sc ic s = (None, s') ->
+  (self = false -> parsed ic -> is_ca ic) /\
+  ((c_iss sc = c_subj ic /\ sig_ok (c_key ic) (c_tbs sc) (c_sig sc) (c_alg sc) = true /\ not_revoked sc) \/
+   (self = false /\ same_cert sc ic)).
+Proof.
+  intros self sc ic s s' H. unfold auth_one in H.
+  bdestr ((c_ver ic >? 1)%Z && negb (c_ca ic =? c_CA_TRUE)%Z && negb self); [inversion H|].
+  assert (CA : self = false -> parsed ic -> is_ca ic).
+  { intros Hs Hp. unfold parsed in Hp. unfold is_ca. subst self.
+    rewrite Hp in B. cbn in B. rewrite andb_true_r in B. b2p. exact B. }
+  split; auto.
+  bdestr (negb (c_iss sc =? c_subj ic)%N).
+  - bdestr (shortcut true self sc ic); inversion H; subst.
+    right. unfold shortcut in B1. b2p. split; [auto|]. split; auto.
+  - b2p.
+    bdestr (f_USE_CRL && (c_rev sc =? c_CRL_CHECK_REVOKED_AND_AUTHENTICATED)%Z); [inversion H|].
+    bdestr (negb (sig_ok (c_key ic) (c_tbs sc) (c_sig sc) (c_alg sc))); [inversion H|].
+    b2p. left. repeat split; auto. unfold not_revoked. cbn in B1. b2p. exact B1.
+Qed.
+
+Lemma pathlen_check_ok : forall ic sc pl, pathlen_check true ic sc pl = true -> pathlen_ok sc ic pl.
+Proof.
+  intros ic sc pl H. unfold pathlen_check, same_ca in H. unfold pathlen_ok, depth_below.
+  bdestr (c_pathlen ic >=? 0)%Z; b2p; [|left; lia].
+  right. destruct ((c_tbs sc =? c_tbs ic)%N && (c_sig sc =? c_sig ic)%N && (pl >? 0)%Z); b2p; lia.
+Qed.
+
+Lemma pathlen_ok_check : forall ic sc pl, pathlen_ok sc ic pl -> pathlen_check true ic sc pl = true.
+Proof.
+  intros ic sc pl H. unfold pathlen_check, same_ca. unfold pathlen_ok, depth_below in H.
+  bdestr (c_pathlen ic >=? 0)%Z; b2p; auto.
+  destruct H as [H|H]; [lia|].
+  apply negb_true_iff. apply Z.ltb_ge.
+  destruct ((c_tbs sc =? c_tbs ic)%N && (c_sig sc =? c_sig ic)%N && (pl >? 0)%Z); lia.
+Qed.
+
+(* ------------------------------------------------------------------------------------------ *)
+(* list helpers *)
+Lemma last_cons : forall (p : list cert) (c d : cert), last (c :: p) d = last p c.
+Proof.
+  induction p as [|x p IH]; intros c d; [reflexivity|].
+  change (last (c :: x :: p) d) with (last (x :: p) d).
+  rewrite (IH x d), (IH x c). reflexivity.
+Qed.
+
+Lemma linked_snoc : forall R p sc a,
+  linked R (sc :: p) -> R (last p sc) a -> linked R ((sc :: p) ++ [a]).
+Proof.
+  intros R p. induction p as [|c p IH]; intros sc a H HL.
+  - cbn in *. auto.
+  - destruct H as [H1 H2]. change ((sc :: c :: p) ++ [a]) with (sc :: ((c :: p) ++ [a])).
+    split; [exact H1|].
+    apply (IH c a H2). rewrite last_cons in HL. exact HL.
+Qed.
+
+Lemma pathlens_snoc : forall p k sc a,
+  pathlens k (sc :: p) -> pathlen_ok (last p sc) a (k + Z.of_nat (length p)) -> pathlens k ((sc :: p) ++ [a]).
+Proof.
+  induction p as [|c p IH]; intros k sc a H HL.
+  - cbn in *. rewrite Z.add_0_r in HL. auto.
+  - destruct H as [H1 H2]. cbn [app]. split; [exact H1|].
+    apply (IH (k + 1)%Z c a H2).
+    replace (k + 1 + Z.of_nat (length p))%Z with (k + Z.of_nat (length (c :: p)))%Z by (cbn [length]; lia).
+    rewrite last_cons in HL. exact HL.
+Qed.
+
+(* ------------------------------------------------------------------------------------------ *)
+(* the walk over the supplied chain *)
+Lemma walk_sound : forall rest pl sc idx f pl' below top,
+  walk sig_ok true pl sc (reset sc) rest idx f = inr (pl', below, top) ->
+  Forall parsed rest -> Forall is_pass below ->
+  steps sig_ok (sc :: rest) /\ pathlens pl (sc :: rest) /\ top = last rest sc /\
+  pl' = (pl + Z.of_nat (length rest))%Z /\ Forall date_clear (removelast (sc :: rest)).
+Proof.
+  induction rest as [|ic rest IH]; intros pl sc idx f pl' below top H HP HB.
+  - cbn in H. inversion H; subst. cbn. repeat split; auto. lia.
+  - cbn [walk] in H.
+    destruct (auth_one sig_ok true false sc ic (reset sc)) as [r s'] eqn:A.
+    bdestr ((match r with Some rc => rc | None => c_PS_SUCCESS end <? c_PS_SUCCESS)%Z); [inversion H|].
+    bdestr (negb (pathlen_check true ic sc pl)); [inversion H|]. b2p.
+    destruct (walk sig_ok true (pl + 1) ic (reset ic) rest (S idx)
+               match r with Some _ => f | None => FChain (S idx) end) as [[[rc' l] f'']|[[pl'' l] top']] eqn:W;
+      inversion H; subst; clear H.
+    inversion HB as [|s0 l0 Hs' Hl]; subst.
+    inversion HP as [|c0 r0 Hic Hrest]; subst.
+    destruct r as [rc|].
+    + exfalso. apply auth_one_some_neg in A. destruct A as [A _]. unfold c_PS_SUCCESS in B. lia.
+    + apply auth_one_pass in A; auto. destruct A as [HD [_ [CA L]]].
+      destruct (IH _ _ _ _ _ _ _ W Hrest Hl) as [S1 [P1 [T1 [PL1 D1]]]].
+      repeat split.
+      * unfold step, issued_by. destruct L as [[L1 [L2 [L3 L4]]]|[_ L]]; [left|right; exact L].
+        repeat split; auto.
+      * exact S1.
+      * apply pathlen_check_ok. exact B0.
+      * exact P1.
+      * subst top. symmetry. apply last_cons.
+      * subst pl'. cbn [length]. lia.
+      * change (removelast (sc :: ic :: rest)) with (sc :: removelast (ic :: rest)).
+        constructor; [exact HD|exact D1].
+Qed.
+
+(* ------------------------------------------------------------------------------------------ *)
+(* the loop over the trust anchors *)
+Lemma anchor_loop_sound : forall anchors rv leaf pl sc s i rc s' eku f,
+  anchor_loop sig_ok true rv leaf pl sc s anchors i = (rc, s', eku, f) ->
+  rc = 0%Z -> is_pass s' -> fl s = c_fl0 sc -> Forall parsed anchors ->
+  exists a, In a anchors /\ step sig_ok sc a /\ pathlen_ok sc a pl /\ date_clear sc /\ eku = false.
+Proof.
+  induction anchors as [|a more IH]; intros rv leaf pl sc s i rc s' eku f H Hrc HP Hfl HPa.
+  - cbn in H. inversion H; subst. discriminate.
+  - cbn [anchor_loop] in H.
+    destruct (auth_one sig_ok true false sc a (set_st s 0)) as [r s1] eqn:A.
+    inversion HPa as [|a0 m0 Ha Hmore]; subst a0 m0.
+    bdestr ((match r with Some rc0 => rc0 | None => c_PS_SUCCESS end =? c_PS_SUCCESS)%Z).
+    + destruct r as [rc0|].
+      * exfalso. b2p. apply auth_one_some_neg in A. destruct A as [A _]. unfold c_PS_SUCCESS in B. lia.
+      * bdestr (negb (pathlen_check true a sc pl)).
+        { inversion H; subst. discriminate. }
+        bdestr (rv && (c_date_now a <? 0)%Z).
+        { inversion H; subst. discriminate. }
+        match type of H with context[if ?b then _ else _] => bdestr b end.
+        { inversion H; subst. discriminate. }
+        bdestr (eku_bad leaf).
+        { inversion H; subst. discriminate. }
+        inversion H; subst. b2p.
+        apply auth_one_pass in A; auto. destruct A as [HD [_ [CA L]]].
+        exists a. split; [left; reflexivity|].
+        cbn in HD. rewrite Hfl in HD.
+        repeat split; auto.
+        -- unfold step, issued_by. destruct L as [[L1 [L2 [L3 L4]]]|[_ L]]; [left|right; exact L].
+           repeat split; auto.
+        -- apply pathlen_check_ok. exact B0.
+    + bdestr ((match r with Some rc0 => rc0 | None => c_PS_SUCCESS end =? c_PS_MEM_FAIL)%Z).
+      * exfalso. b2p. destruct r as [rc0|]; [|discriminate B0].
+        apply auth_one_some_neg in A. destruct A as [_ A]. contradiction.
+      * assert (Hfl1 : fl s1 = c_fl0 sc).
+        { destruct r as [rc0|].
+          - apply auth_one_some_fl in A. rewrite A. cbn. exact Hfl.
+          - b2p. contradiction. }
+        destruct (IH _ _ _ _ _ _ _ _ _ _ H Hrc HP Hfl1 Hmore) as [a' [I R]].
+        exists a'. split; [right; exact I|exact R].
+Qed.
+
+Lemma anchor_loop_eku : forall anchors fx rv leaf pl sc s i rc s' f,
+  anchor_loop sig_ok fx rv leaf pl sc s anchors i = (rc, s', true, f) -> rc = c_PS_CERT_AUTH_FAIL_EXTENSION.
+Proof.
+  induction anchors as [|a more IH]; intros fx rv leaf pl sc s i rc s' f H.
+  - cbn in H. inversion H.
+  - cbn [anchor_loop] in H.
+    destruct (auth_one sig_ok fx false sc a (set_st s 0)) as [r s1].
+    repeat match type of H with context[if ?b then _ else _] => destruct b end;
+      try (inversion H; subst; reflexivity); try (inversion H; fail).
+    eapply IH; eauto.
+Qed.
+
+(* return code 0 from the anchor loop alone: the cryptographic link *)
+Lemma anchor_loop_rc0 : forall anchors rv leaf pl sc s i s' eku f,
+  anchor_loop sig_ok true rv leaf pl sc s anchors i = (0%Z, s', eku, f) -> Forall parsed anchors ->
+  exists a, In a anchors /\ step_weak sig_ok sc a /\ pathlen_ok sc a pl.
+Proof.
+  induction anchors as [|a more IH]; intros rv leaf pl sc s i s' eku f H HPa.
+  - cbn in H. inversion H.
+  - cbn [anchor_loop] in H.
+    destruct (auth_one sig_ok true false sc a (set_st s 0)) as [r s1] eqn:A.
+    inversion HPa as [|a0 m0 Ha Hmore]; subst a0 m0.
+    bdestr ((match r with Some rc0 => rc0 | None => c_PS_SUCCESS end =? c_PS_SUCCESS)%Z).
+    + destruct r as [rc0|].
+      * exfalso. b2p. apply auth_one_some_neg in A. destruct A as [A _]. unfold c_PS_SUCCESS in B. lia.
+      * bdestr (negb (pathlen_check true a sc pl)); [inversion H|].
+        b2p. apply auth_one_none in A. destruct A as [CA L].
+        exists a. split; [left; reflexivity|]. split; [|apply pathlen_check_ok; exact B0].
+        unfold step_weak, issued_by_weak. destruct L as [[L1 [L2 L3]]|[_ L]]; [left|right; exact L].
+        repeat split; auto.
+    + bdestr ((match r with Some rc0 => rc0 | None => c_PS_SUCCESS end =? c_PS_MEM_FAIL)%Z).
+      * exfalso. b2p. destruct r as [rc0|]; [|discriminate B0].
+        apply auth_one_some_neg in A. destruct A as [_ A]. contradiction.
+      * destruct (IH _ _ _ _ _ _ _ _ _ H Hmore) as [a' [I R]].
+        exists a'. split; [right; exact I|exact R].
+Qed.
+
+Lemma walk_rc0 : forall rest pl sc s idx f pl' below top,
+  walk sig_ok true pl sc s rest idx f = inr (pl', below, top) -> Forall parsed rest ->
+  steps_weak sig_ok (sc :: rest) /\ pathlens pl (sc :: rest) /\ top = last rest sc /\
+  pl' = (pl + Z.of_nat (length rest))%Z.
+Proof.
+  induction rest as [|ic rest IH]; intros pl sc s idx f pl' below top H HP.
+  - cbn in H. inversion H; subst. cbn. repeat split; auto. lia.
+  - cbn [walk] in H.
+    destruct (auth_one sig_ok true false sc ic s) as [r s'] eqn:A.
+    bdestr ((match r with Some rc => rc | None => c_PS_SUCCESS end <? c_PS_SUCCESS)%Z); [inversion H|].
+    bdestr (negb (pathlen_check true ic sc pl)); [inversion H|]. b2p.
+    destruct (walk sig_ok true (pl + 1) ic (reset ic) rest (S idx)
+               match r with Some _ => f | None => FChain (S idx) end) as [[[rc' l] f'']|[[pl'' l] top']] eqn:W;
+      inversion H; subst; clear H.
+    inversion HP as [|c0 r0 Hic Hrest]; subst.
+    destruct r as [rc|].
+    + exfalso. apply auth_one_some_neg in A. destruct A as [A _]. unfold c_PS_SUCCESS in B. lia.
+    + apply auth_one_none in A. destruct A as [CA L].
+      destruct (IH _ _ _ _ _ _ _ _ W Hrest) as [S1 [P1 [T1 PL1]]].
+      repeat split.
+      * unfold step_weak, issued_by_weak. destruct L as [[L1 [L2 L3]]|[_ L]]; [left|right; exact L].
+        repeat split; auto.
+      * exact S1.
+      * apply pathlen_check_ok. exact B0.
+      * exact P1.
+      * subst top. symmetry. apply last_cons.
+      * subst pl'. cbn [length]. lia.
+Qed.
+
+Lemma walk_inl_neg : forall rest fx pl sc s idx f rc l f',
+  walk sig_ok fx pl sc s rest idx f = inl (rc, l, f') -> (rc < 0)%Z.
+Proof.
+  induction rest as [|ic rest IH]; intros fx pl sc s idx f rc l f' H.
+  - cbn in H. inversion H.
+  - cbn [walk] in H.
+    destruct (auth_one sig_ok fx false sc ic s) as [r s'] eqn:A.
+    bdestr ((match r with Some rc => rc | None => c_PS_SUCCESS end <? c_PS_SUCCESS)%Z).
+    + inversion H; subst. b2p. unfold c_PS_SUCCESS in B. exact B.
+    + bdestr (negb (pathlen_check fx ic sc pl)).
+      * inversion H; subst. reflexivity.
+      * destruct (walk sig_ok fx (pl + 1) ic (reset ic) rest (S idx)
+               match r with Some _ => f | None => FChain (S idx) end) as [[[rc' l'] f'']|[[pl'' l'] top']] eqn:W;
+          inversion H; subst. eapply IH; eauto.
+Qed.
+
+Lemma reval_cases : forall cs o l, reval_chain cs = (o, l) ->
+  (o = None /\ Forall (fun c => c_date_now c = 0%Z /\ date_clear c) cs) \/
+  o = Some c_PS_PARSE_FAIL \/ o = Some c_PS_CERT_AUTH_FAIL_EXTENSION.
+Proof.
+  induction cs as [|c r IH]; intros o l H.
+  - cbn in H. inversion H. left. split; auto.
+  - cbn [reval_chain] in H.
+    bdestr (c_date_now c <? 0)%Z; [inversion H; auto|].
+    bdestr (0 <? c_date_now c)%Z.
+    + assert (X : has_flag (N.lor (c_fl0 c) DATE) DATE = true).
+      { unfold has_flag. apply negb_true_iff. apply N.eqb_neq.
+        rewrite N.land_lor_distr_l. intro E. apply N.lor_eq_0_iff in E. destruct E as [_ E]. discriminate E. }
+      rewrite X in H. inversion H; auto.
+    + bdestr (has_flag (c_fl0 c) DATE); [inversion H; auto|].
+      destruct (reval_chain r) as [o' l'] eqn:R. inversion H; subst.
+      destruct (IH _ _ eq_refl) as [[E F]|[E|E]]; auto.
+      left. split; auto. constructor; auto. b2p. split; [lia|exact B1].
+Qed.
+
+Lemma Forall_removelast_last : forall (P : cert -> Prop) l d,
+  l <> [] -> Forall P (removelast l) -> P (last l d) -> Forall P l.
+Proof.
+  intros P l d Hne HF HL. rewrite (app_removelast_last d Hne).
+  apply Forall_app. split; auto.
+Qed.
+
+Lemma accepted_iff : forall r, accepted r = true <-> v_rc r = 0%Z /\ Forall is_pass (v_states r).
+Proof.
+  intros r. unfold accepted. rewrite andb_true_iff, forallb_forall, Forall_forall, Z.eqb_eq.
+  unfold is_pass. split; intros [A B]; split; auto; intros x Hx; specialize (B x Hx); [apply Z.eqb_eq|apply Z.eqb_eq]; exact B.
+Qed.
+
+(* ------------------------------------------------------------------------------------------ *)
+(* main soundness theorem (repaired code) *)
+Theorem validate_sound : forall rv chain anchors,
+  anchors <> [] -> Forall parsed (chain ++ anchors) -> hd_fresh chain ->
+  accepted (validate sig_ok true rv chain anchors) = true ->
+  genuine_path sig_ok rv chain anchors.
+Proof.
+  intros rv chain anchors Hne HP Hfresh Hacc.
+  apply accepted_iff in Hacc. destruct Hacc as [Hrc Hst].
+  destruct chain as [|leaf rest]; [cbn in Hrc; discriminate Hrc|].
+  cbn in Hfresh.
+  apply Forall_app in HP. destruct HP as [HPc HPa].
+  inversion HPc as [|x y Hleaf HPr]; subst x y.
+  unfold validate in Hrc, Hst.
+  assert (RV : rv = true -> Forall (fun c => c_date_now c = 0%Z) (leaf :: rest)).
+  { intros E. subst rv. destruct (reval_chain (leaf :: rest)) as [o l0] eqn:R.
+    destruct (reval_cases _ _ _ R) as [[E F]|[E|E]]; subst o.
+    - eapply Forall_impl; [|exact F]. intros c [X _]; exact X.
+    - cbn in Hrc. discriminate Hrc.
+    - cbn in Hrc. discriminate Hrc. }
+  assert (CONT : (if rv then reval_chain (leaf :: rest) else (None, map init (leaf :: rest))) = (None, snd (if rv then reval_chain (leaf :: rest) else (None, map init (leaf :: rest))))).
+  { destruct rv; [|reflexivity].
+    destruct (reval_chain (leaf :: rest)) as [o l0] eqn:R.
+    destruct (reval_cases _ _ _ R) as [[E F]|[E|E]]; subst o; [reflexivity| |]; cbn in Hrc; discriminate Hrc. }
+  rewrite CONT in Hrc, Hst. clear CONT.
+  destruct anchors as [|a0 more]; [contradiction|].
+  assert (IL : init leaf = reset leaf) by (unfold init, reset; rewrite Hfresh; reflexivity).
+  rewrite IL in Hrc, Hst.
+  destruct (walk sig_ok true 0 leaf (reset leaf) rest 0 FNone) as [[[rc l] f]|[[pl below] top]] eqn:W.
+  - exfalso. apply walk_inl_neg in W. cbn in Hrc. lia.
+  - destruct (anchor_loop sig_ok true rv leaf pl top (init top) (a0 :: more) 0) as [[[rc stop] eku] f] eqn:AL.
+    cbn in Hrc. subst rc.
+    destruct eku.
+    { apply anchor_loop_eku in AL. discriminate AL. }
+    cbn in Hst. apply Forall_app in Hst. destruct Hst as [Hb Hs]. inversion Hs as [|x y Hstop _]; subst x y.
+    destruct (walk_sound _ _ _ _ _ _ _ _ W HPr Hb) as [S1 [P1 [T1 [PL1 D1]]]].
+    destruct (anchor_loop_sound _ _ _ _ _ _ _ _ _ _ _ AL eq_refl Hstop eq_refl HPa) as [a [Ia [Sa [Pa [Da _]]]]].
+    exists a. split; [exact Ia|].
+    unfold path_to. repeat split.
+    + apply linked_snoc; [exact S1|]. rewrite <- T1. exact Sa.
+    + apply pathlens_snoc; [exact P1|]. rewrite <- T1. rewrite <- PL1. exact Pa.
+    + assert (DC : Forall date_clear (leaf :: rest)).
+      { apply (Forall_removelast_last date_clear (leaf :: rest) leaf); [discriminate|exact D1|].
+        rewrite last_cons. rewrite <- T1. exact Da. }
+      apply Forall_forall. intros c Hc. unfold valid_now. split.
+      * rewrite Forall_forall in DC. exact (DC c Hc).
+      * intros E. specialize (RV E). rewrite Forall_forall in RV. exact (RV c Hc).
+Qed.
+
+(* what return code 0 alone guarantees: the signed path, not the soft checks *)
+Theorem validate_rc0_signed_path : forall rv chain anchors,
+  anchors <> [] -> Forall parsed (chain ++ anchors) ->
+  v_rc (validate sig_ok true rv chain anchors) = 0%Z ->
+  signed_path sig_ok chain anchors.
+Proof.
+  intros rv chain anchors Hne HP Hrc.
+  destruct chain as [|leaf rest]; [cbn in Hrc; discriminate Hrc|].
+  apply Forall_app in HP. destruct HP as [HPc HPa].
+  inversion HPc as [|x y Hleaf HPr]; subst x y.
+  unfold validate in Hrc.
+  destruct (if rv then reval_chain (leaf :: rest) else (None, map init (leaf :: rest))) as [o l0] eqn:R.
+  assert (o = None).
+  { destruct rv.
+    - destruct (reval_cases _ _ _ R) as [[E F]|[E|E]]; subst o; auto; cbn in Hrc; discriminate Hrc.
+    - inversion R; reflexivity. }
+  subst o.
+  destruct anchors as [|a0 more]; [contradiction|].
+  destruct (walk sig_ok true 0 leaf (init leaf) rest 0 FNone) as [[[rc l] f]|[[pl below] top]] eqn:W.
+  - exfalso. apply walk_inl_neg in W. cbn in Hrc. lia.
+  - destruct (anchor_loop sig_ok true rv leaf pl top (init top) (a0 :: more) 0) as [[[rc stop] eku] f] eqn:AL.
+    cbn in Hrc. subst rc.
+    destruct (walk_rc0 _ _ _ _ _ _ _ _ _ W HPr) as [S1 [P1 [T1 PL1]]].
+    destruct (anchor_loop_rc0 _ _ _ _ _ _ _ _ _ _ AL HPa) as [a [Ia [Sa Pa]]].
+    exists a. split; [exact Ia|]. split.
+    + apply linked_snoc; [exact S1|]. rewrite <- T1. exact Sa.
+    + apply pathlens_snoc; [exact P1|]. rewrite <- T1. rewrite <- PL1. exact Pa.
+Qed.
+
+(* ------------------------------------------------------------------------------------------ *)
+(* no trust anchors: the chain authenticates itself and must end self-signed *)
+Lemma cm_walk_sound : forall rest sc idx rc l f,
+  cm_walk sig_ok true sc rest idx = (rc, l, f) -> rc = 0%Z -> Forall is_pass l -> Forall parsed rest ->
+  steps sig_ok (sc :: rest) /\ self_signed sig_ok (last rest sc) /\ Forall date_clear (sc :: rest).
+Proof.
+  induction rest as [|ic rest IH]; intros sc idx rc l f H Hrc HPs HPa.
+  - cbn [cm_walk] in H.
+    destruct (auth_one sig_ok true true sc sc (reset sc)) as [r s'] eqn:A.
+    destruct r as [rc0|]; inversion H; subst.
+    + exfalso. apply auth_one_some_neg in A. lia.
+    + inversion HPs as [|x y Hs _]; subst x y.
+      apply auth_one_pass in A; auto. destruct A as [HD [_ [_ L]]].
+      destruct L as [[L1 [L2 _]]|[L _]]; [|discriminate L].
+      cbn. repeat split; auto.
+  - cbn [cm_walk] in H.
+    destruct (auth_one sig_ok true false sc ic (reset sc)) as [r s'] eqn:A.
+    destruct r as [rc0|].
+    + inversion H; subst. exfalso. apply auth_one_some_neg in A. lia.
+    + destruct (cm_walk sig_ok true ic rest (S idx)) as [[rc' l'] f'] eqn:W. inversion H; subst.
+      inversion HPs as [|x y Hs Hl]; subst x y.
+      inversion HPa as [|x y Hic Hrest]; subst x y.
+      destruct (IH _ _ _ _ _ W eq_refl Hl Hrest) as [S1 [SS D1]].
+      apply auth_one_pass in A; auto. destruct A as [HD [_ [CA L]]].
+      split; [|split].
+      * split; [|exact S1].
+        unfold step, issued_by. destruct L as [[L1 [L2 [L3 L4]]]|[_ L]]; [left|right; exact L].
+        repeat split; auto.
+      * rewrite last_cons. exact SS.
+      * constructor; [exact HD|exact D1].
+Qed.
+
+Theorem validate_noanchor_sound : forall rv chain,
+  Forall parsed chain -> accepted (validate sig_ok true rv chain []) = true ->
+  self_contained sig_ok chain /\ Forall (valid_now rv) chain.
+Proof.
+  intros rv chain HP Hacc.
+  apply accepted_iff in Hacc. destruct Hacc as [Hrc Hst].
+  destruct chain as [|leaf rest]; [cbn in Hrc; discriminate Hrc|].
+  inversion HP as [|x y Hleaf HPr]; subst x y.
+  unfold validate in Hrc, Hst.
+  destruct (if rv then reval_chain (leaf :: rest) else (None, map init (leaf :: rest))) as [o l0] eqn:R.
+  assert (RV : o = None /\ (rv = true -> Forall (fun c => c_date_now c = 0%Z) (leaf :: rest))).
+  { destruct rv.
+    - destruct (reval_cases _ _ _ R) as [[E F]|[E|E]]; subst o; try (cbn in Hrc; discriminate Hrc).
+      split; auto. intros _. eapply Forall_impl; [|exact F]. intros c [X _]; exact X.
+    - inversion R. split; auto. discriminate. }
+  destruct RV as [E RV]. subst o.
+  destruct (cm_walk sig_ok true leaf rest 0) as [[rc l] f] eqn:W.
+  cbn in Hrc, Hst. subst rc.
+  destruct (cm_walk_sound _ _ _ _ _ _ W eq_refl Hst HPr) as [S1 [SS D1]].
+  split.
+  - unfold self_contained. split; [exact S1|]. rewrite last_cons. exact SS.
+  - apply Forall_forall. intros c Hc. split.
+    + rewrite Forall_forall in D1. exact (D1 c Hc).
+    + intros Erv. specialize (RV Erv). rewrite Forall_forall in RV. exact (RV c Hc).
+Qed.
+
+(* ------------------------------------------------------------------------------------------ *)
+(* converse direction *)
+Definition pass_state (c : cert) : cst := mkCst PASS (c_fl0 c).
+
+Lemma aki_check_ok : forall sc ic s, aki_ok sc ic -> aki_check sc ic s = s.
+Proof.
+  intros sc ic s H. unfold aki_check, f_DISABLE_AUTH_KEY_ID_CHECK.
+  bdestr ((0 <? c_ak_len sc)%N || (0 <? c_sk_len ic)%N); [|reflexivity].
+  bdestr (negb (c_sk_len ic =? c_ak_len sc)%N); b2p.
+  - bdestr (c_sig sc =? c_sig ic)%N; b2p.
+    + destruct H as [[H1 H2]|[[H1 H2]|[H1 H2]]].
+      * exfalso. rewrite H1, H2 in B0. contradiction.
+      * exfalso. symmetry in H1. contradiction.
+      * rewrite H1. reflexivity.
+    + exfalso. destruct H as [[H1 H2]|[[H1 H2]|[H1 H2]]].
+      * rewrite H1, H2 in B0. contradiction.
+      * symmetry in H1. contradiction.
+      * contradiction.
+  - bdestr (negb (c_sk_val ic =? c_ak_val sc)%N); [|reflexivity]. b2p. exfalso.
+    destruct H as [[H1 H2]|[[H1 H2]|[H1 H2]]].
+    + rewrite H1, H2 in B. discriminate B.
+    + symmetry in H2. contradiction.
+    + rewrite H1 in B0. rewrite H1, B0 in B. discriminate B.
+Qed.
+
+Lemma ku_check_ok : forall ic s, ku_supported ic -> ku_check ic s = (None, s).
+Proof.
+  intros ic s H. unfold ku_check.
+  bdestr (N.land (c_ku ic) n_KEY_USAGE_KEY_CERT_SIGN =? 0)%N; [|reflexivity]. b2p.
+  destruct H as [H|[H1 H2]]; [contradiction|].
+  rewrite H1. cbn [N.eqb].
+  bdestr (c_pre3280 ic =? 0)%Z; b2p; [lia|].
+  bdestr (c_pre3280 ic <? 0)%Z; b2p; [lia|]. reflexivity.
+Qed.
+
+Lemma auth_one_link : forall sc ic s,
+  issued_by sig_ok sc ic -> link_supported sc ic -> st s = 0%Z -> has_flag (fl s) DATE = false ->
+  auth_one sig_ok true false sc ic s = (None, set_st s PASS).
+Proof.
+  intros sc ic s [I1 [I2 [I3 [I4 I5]]]] [L1 L2] H0 HD. unfold auth_one.
+  unfold is_ca in I3. rewrite I3, Z.eqb_refl. cbn [negb andb]. rewrite andb_false_r. cbn [andb].
+  rewrite I1, N.eqb_refl. cbn [negb].
+  unfold not_revoked in I5. apply Z.eqb_neq in I5. rewrite I5, andb_false_r.
+  rewrite I2. cbn [negb].
+  rewrite (aki_check_ok _ _ _ L1), (ku_check_ok _ _ L2).
+  rewrite (tail_clean _ H0 HD). reflexivity.
+Qed.
+
+Lemma auth_one_copy : forall sc ic s,
+  same_cert sc ic -> c_iss sc <> c_subj ic -> is_ca ic -> st s = 0%Z -> has_flag (fl s) DATE = false ->
+  auth_one sig_ok true false sc ic s = (None, set_st s PASS).
+Proof.
+  intros sc ic s [S1 S2] Hdn Hca H0 HD. unfold auth_one.
+  unfold is_ca in Hca. rewrite Hca, Z.eqb_refl. cbn [negb andb]. rewrite andb_false_r. cbn [andb].
+  apply N.eqb_neq in Hdn. rewrite Hdn. cbn [negb].
+  unfold shortcut. rewrite S1, S2, !N.eqb_refl. cbn [negb andb].
+  rewrite (tail_clean _ H0 HD). reflexivity.
+Qed.
+
+Lemma auth_one_unclaimed : forall sc a s, ~ claims sig_ok sc a ->
+  exists rc s1, auth_one sig_ok true false sc a s = (Some rc, s1).
+Proof.
+  intros sc a s H. unfold auth_one.
+  destruct ((c_ver a >? 1)%Z && negb (c_ca a =? c_CA_TRUE)%Z && negb false); [eauto|].
+  bdestr (negb (c_iss sc =? c_subj a)%N).
+  - bdestr (shortcut true false sc a); [|eauto].
+    exfalso. apply H. right. unfold shortcut in B0. b2p. split; auto.
+  - b2p. destruct (f_USE_CRL && (c_rev sc =? c_CRL_CHECK_REVOKED_AND_AUTHENTICATED)%Z); [eauto|].
+    bdestr (negb (sig_ok (c_key a) (c_tbs sc) (c_sig sc) (c_alg sc))); [eauto|].
+    exfalso. apply H. left. b2p. split; auto.
+Qed.
+
+Lemma last_in : forall (l : list cert) d, l <> [] -> In (last l d) l.
+Proof.
+  induction l as [|x l IH]; intros d H; [contradiction|].
+  destruct l as [|y l]; [left; reflexivity|].
+  right. change (last (x :: y :: l) d) with (last (y :: l) d). apply IH. discriminate.
+Qed.
+
+Lemma walk_complete' : forall rest pl sc idx f,
+  links_supported sig_ok (sc :: rest) -> pathlens pl (sc :: rest) -> Forall date_clear (removelast (sc :: rest)) ->
+  walk sig_ok true pl sc (reset sc) rest idx f =
+  inr ((pl + Z.of_nat (length rest))%Z, map pass_state (removelast (sc :: rest)), last rest sc).
+Proof.
+  induction rest as [|ic rest IH]; intros pl sc idx f HL HP HD.
+  - cbn. rewrite Z.add_0_r. reflexivity.
+  - destruct HL as [[L1 L2] L3]. destruct HP as [P1 P2].
+    change (removelast (sc :: ic :: rest)) with (sc :: removelast (ic :: rest)) in *.
+    inversion HD as [|x y D1 D2]; subst x y.
+    cbn [walk].
+    rewrite (auth_one_link sc ic (reset sc) L1 L2 eq_refl D1).
+    change ((c_PS_SUCCESS <? c_PS_SUCCESS)%Z) with false. cbn iota.
+    rewrite (pathlen_ok_check _ _ _ P1). cbn [negb].
+    rewrite (IH (pl + 1)%Z ic (S idx) (FChain (S idx)) L3 P2 D2).
+    rewrite last_cons. cbn [map length]. f_equal. f_equal. f_equal. lia.
+Qed.
+
+Lemma anchor_loop_complete : forall before rv leaf pl top s a after i,
+  fl s = c_fl0 top -> date_clear top -> Forall (fun a' => ~ claims sig_ok top a') before ->
+  top_supported sig_ok top a -> pathlen_ok top a pl -> (rv = true -> valid_now rv a) -> eku_ok leaf ->
+  anchor_loop sig_ok true rv leaf pl top s (before ++ a :: after) i =
+  (0%Z, pass_state top, false, FAnchor (i + length before)).
+Proof.
+  induction before as [|b before IH]; intros rv leaf pl top s a after i Hfl HD HB HT HPl HV HE.
+  - cbn [app anchor_loop].
+    assert (A : auth_one sig_ok true false top a (set_st s 0) = (None, set_st (set_st s 0) PASS)).
+    { destruct HT as [[T1 T2]|[T1 [T2 [T3 T4]]]].
+      - apply auth_one_link; auto. cbn. rewrite Hfl. exact HD.
+      - apply auth_one_copy; auto. cbn. rewrite Hfl. exact HD. }
+    rewrite A. rewrite Z.eqb_refl.
+    rewrite (pathlen_ok_check _ _ _ HPl). cbn [negb].
+    assert (E1 : rv && (c_date_now a <? 0)%Z = false).
+    { destruct rv; [|reflexivity]. destruct (HV eq_refl) as [_ V]. rewrite (V eq_refl). reflexivity. }
+    rewrite E1.
+    assert (E2 : rv && has_flag (if (0 <? c_date_now a)%Z then N.lor (c_fl0 a) DATE else c_fl0 a) DATE = false).
+    { destruct rv; [|reflexivity]. destruct (HV eq_refl) as [V0 V]. rewrite (V eq_refl). cbn. exact V0. }
+    rewrite E2.
+    assert (E3 : eku_bad leaf = false).
+    { unfold eku_bad. unfold eku_ok in HE. destruct (c_eku_crit leaf); [|reflexivity].
+      apply N.eqb_neq. apply HE. reflexivity. }
+    rewrite E3. unfold pass_state, set_st. cbn. rewrite Hfl, Nat.add_0_r. reflexivity.
+  - inversion HB as [|x y HB1 HB2]; subst x y.
+    cbn [app anchor_loop].
+    destruct (auth_one_unclaimed top b (set_st s 0) HB1) as [rc [s1 A]].
+    rewrite A.
+    destruct (auth_one_some_neg _ _ _ _ _ _ _ A) as [N1 N2].
+    assert (E1 : (rc =? c_PS_SUCCESS)%Z = false) by (apply Z.eqb_neq; unfold c_PS_SUCCESS; lia).
+    assert (E2 : (rc =? c_PS_MEM_FAIL)%Z = false) by (apply Z.eqb_neq; exact N2).
+    rewrite E1, E2.
+    rewrite (IH rv leaf pl top s1 a after (S i)); auto.
+    + cbn [length]. f_equal. f_equal. lia.
+    + rewrite (auth_one_some_fl _ _ _ _ _ _ _ A). cbn. exact Hfl.
+Qed.
+
+Lemma reval_complete : forall cs, Forall (valid_now true) cs -> reval_chain cs = (None, map init cs).
+Proof.
+  induction cs as [|c r IH]; intros H; [reflexivity|].
+  inversion H as [|x y [V0 V1] Hr]; subst x y.
+  cbn [reval_chain]. rewrite (V1 eq_refl). cbn. rewrite V0. rewrite (IH Hr). reflexivity.
+Qed.
+
+Lemma Forall_pass_states : forall l, forallb (fun s => (st s =? PASS)%Z) (map pass_state l) = true.
+Proof. induction l; cbn; auto. Qed.
+
+Theorem validate_complete : forall rv chain before a after,
+  supported_path sig_ok rv chain before a ->
+  accepted (validate sig_ok true rv chain (before ++ a :: after)) = true.
+Proof.
+  intros rv chain before a after [leaf [below [top [Hc [Ht [HL [HT [HP [HV [HVa [HE [Hst HB]]]]]]]]]]]].
+  subst chain.
+  assert (RV : (if rv then reval_chain (leaf :: below) else (None, map init (leaf :: below))) = (None, map init (leaf :: below))).
+  { destruct rv; [|reflexivity]. apply reval_complete. exact HV. }
+  unfold validate. rewrite RV.
+  destruct (before ++ a :: after) as [|a0 more] eqn:EA; [destruct before; discriminate EA|].
+  rewrite <- EA. clear EA a0 more.
+  assert (IL : init leaf = reset leaf) by (unfold init, reset; rewrite Hst; reflexivity).
+  rewrite IL.
+  assert (DC : Forall date_clear (leaf :: below)).
+  { eapply Forall_impl; [|exact HV]. intros c [X _]. exact X. }
+  assert (DCr : Forall date_clear (removelast (leaf :: below))).
+  { rewrite Forall_forall in *. intros c Hc. apply DC.
+    rewrite (app_removelast_last leaf (l := leaf :: below)) by discriminate.
+    apply in_or_app. left. exact Hc. }
+  assert (PL : pathlens 0 (leaf :: below) /\ pathlen_ok top a (0 + Z.of_nat (length below))).
+  { clear - HP Ht. revert HP. generalize 0%Z as k. revert leaf Ht.
+    induction below as [|c below IH]; intros leaf Ht k HP.
+    - cbn in *. subst top. rewrite Z.add_0_r. destruct HP as [HP _]. split; auto.
+    - change ((leaf :: c :: below) ++ [a]) with (leaf :: ((c :: below) ++ [a])) in HP.
+      destruct HP as [P1 P2]. rewrite last_cons in Ht.
+      assert (Ht' : last (c :: below) c = top).
+      { rewrite last_cons. rewrite <- Ht. symmetry. apply last_cons. }
+      destruct (IH c Ht' (k + 1)%Z P2) as [Q1 Q2].
+      split; [split; auto|].
+      replace (k + Z.of_nat (length (c :: below)))%Z with (k + 1 + Z.of_nat (length below))%Z by (cbn [length]; lia).
+      exact Q2. }
+  destruct PL as [PL1 PL2].
+  rewrite (walk_complete' below 0 leaf 0 FNone HL PL1 DCr).
+  assert (Ttop : last below leaf = top) by (rewrite <- Ht; symmetry; apply last_cons).
+  rewrite Ttop.
+  assert (Dtop : date_clear top).
+  { rewrite Forall_forall in DC. apply DC. rewrite <- Ht. apply last_in. discriminate. }
+  rewrite (anchor_loop_complete before rv leaf _ top (init top) a after 0 eq_refl Dtop HB HT PL2 HVa HE).
+  unfold accepted. cbn [v_rc v_states]. rewrite Z.eqb_refl. cbn [andb].
+  rewrite forallb_app. rewrite Forall_pass_states. cbn. reflexivity.
+Qed.
+
+End Proofs.
+
+(* ------------------------------------------------------------------------------------------ *)
+(* parse-time gate *)
+Theorem parse_gate_sound : forall d, parse_gate true d = true -> gate_demands d.
+Proof.
+  intros d H. unfold parse_gate, sha1_rejected, f_ALLOW_VERSION_1_ROOT_CERT_PARSE,
+    f_ALLOW_UNKNOWN_CRITICAL_EXTENSIONS, f_ENABLE_SHA1_SIGNED_CERTS in H.
+  rewrite orb_false_r in H. b2p.
+  unfold gate_demands. repeat split; auto.
+  apply orb_true_iff in H0. destruct H0 as [E|E]; [left; exact E|right].
+  rewrite negb_involutive in E. b2p. auto.
+Qed.
+
+Theorem parse_gate_complete : forall d, gate_demands d -> parse_gate true d = true.
+Proof.
+  intros d [V [U [A S]]]. unfold parse_gate, sha1_rejected, f_ALLOW_VERSION_1_ROOT_CERT_PARSE,
+    f_ALLOW_UNKNOWN_CRITICAL_EXTENSIONS, f_ENABLE_SHA1_SIGNED_CERTS.
+  rewrite V, U, <- A, N.eqb_refl. cbn [Z.eqb negb orb andb Pos.eqb].
+  destruct S as [S|[S1 [S2 S3]]]; [rewrite S; reflexivity|].
+  rewrite S1, S2, S3, !N.eqb_refl. cbn. apply orb_true_r.
+Qed.
+
+Theorem parse_gate_iff : forall d, parse_gate true d = true <-> gate_demands d.
+Proof. intros d; split; [exact (parse_gate_sound d)|exact (parse_gate_complete d)]. Qed.
+
+(* the pinned SHA-1 rule lets a SHA-1 signed certificate through whenever the two common names
+   differ in LENGTH (e.g. testkeys/RSA/2048_RSA_SHA1.pem) *)
+Definition w_sha1 : pdesc := mkPdesc 2 n_OID_SHA1_RSA_SIG n_OID_SHA1_RSA_SIG 34 1 44 2 false.
+Theorem parse_gate_pinned_refuted : exists d, parse_gate false d = true /\ ~ gate_demands d.
+Proof.
+  exists w_sha1. split; [vm_compute; reflexivity|].
+  intros [_ [_ [_ [S|[_ [S _]]]]]]; vm_compute in S; discriminate S.
+Qed.
+
+(* ------------------------------------------------------------------------------------------ *)
+(* witnesses *)
+Definition no_sig : N -> N -> N -> N -> bool := fun _ _ _ _ => false.
+Definition all_sig : N -> N -> N -> N -> bool := fun _ _ _ _ => true.
+
+(*                       subj iss tbs sig alg  key ver ca  pathlen ku  eku crit  ak    sk   rev p3 dn fl st *)
+Definition w_leaf   := mkCert 1  9  10  21 1679 5   2  0   (-1)   224 6  false 0 0   0 0   6   0  0  0  0.
+Definition w_anchor := mkCert 2  2  11  21 1679 7   2  255 (-1)   6   0  false 0 0   0 0   6   0  0  0  0.
+
+(* pinned code: a leaf carrying a copy of the trust anchor's signature BYTES under a foreign issuer
+   name is accepted even when no signature in the world verifies *)
+Theorem validate_sound_pinned_refuted :
+  exists sig_ok rv chain anchors,
+    anchors <> [] /\ Forall parsed (chain ++ anchors) /\ hd_fresh chain /\
+    accepted (validate sig_ok false rv chain anchors) = true /\
+    ~ genuine_path sig_ok rv chain anchors.
+Proof.
+  exists no_sig, false, [w_leaf], [w_anchor].
+  split; [discriminate|]. split; [repeat constructor|]. split; [reflexivity|].
+  split; [vm_compute; reflexivity|].
+  intros [a [Ia [[S _] _]]]. destruct Ia as [Ia|[]]. subst a.
+  destruct S as [[_ [S _]]|[S _]]; vm_compute in S; discriminate S.
+Qed.
+
+Example witness_rejected_by_repaired_code : accepted (validate no_sig true false [w_leaf] [w_anchor]) = false.
+Proof. vm_compute. reflexivity. Qed.
+
+(* pinned code, no trust anchors: any single certificate "is self-signed" *)
+Theorem validate_noanchor_pinned_refuted :
+  exists sig_ok rv chain, Forall parsed chain /\
+    accepted (validate sig_ok false rv chain []) = true /\ ~ self_contained sig_ok chain.
+Proof.
+  exists no_sig, false, [w_leaf]. split; [repeat constructor|]. split; [vm_compute; reflexivity|].
+  intros [_ [S _]]. vm_compute in S. discriminate S.
+Qed.
+
+(* return code 0 does NOT mean every certificate passed (the lemma C04 would like):
+   the date / keyUsage / key-identifier verdicts only live in authStatus *)
+Definition w_leaf_dated := mkCert 1 2 10 20 1679 5 2 0 (-1) 224 6 false 0 0 0 0 6 0 0 8 0.
+Definition w_root := mkCert 2 2 11 21 1679 7 2 255 (-1) 6 0 false 0 0 0 0 6 0 0 0 0.
+Theorem status_consistent_refuted :
+  exists sig_ok rv chain anchors,
+    anchors <> [] /\ Forall parsed (chain ++ anchors) /\ hd_fresh chain /\
+    v_rc (validate sig_ok true rv chain anchors) = 0%Z /\
+    ~ Forall (fun s => st s = c_PS_CERT_AUTH_PASS) (v_states (validate sig_ok true rv chain anchors)).
+Proof.
+  exists all_sig, false, [w_leaf_dated], [w_root].
+  split; [discriminate|]. split; [repeat constructor|]. split; [reflexivity|].
+  split; [vm_compute; reflexivity|].
+  intros H. vm_compute in H. inversion H as [|x y E _]. discriminate E.
+Qed.
+
+(* ------------------------------------------------------------------------------------------ *)
+(* non-vacuity: the hypotheses of the two main theorems are satisfiable together *)
+Definition key_sig : N -> N -> N -> N -> bool :=   (* TBS t is signed by key t+100, signature id 2t *)
+  fun key tbs sg alg => (key =? tbs + 100)%N && (sg =? 2 * tbs)%N && (alg =? 1679)%N.
+(*                      subj iss tbs sig alg  key ver ca  pathlen ku  eku crit  ak    sk     rev p3 dn fl st *)
+Definition e_leaf  := mkCert 1  2  10  20 1679 5   2  0   (-1)   224 6  true  20 51 20 50  6   0  0  0  0.
+Definition e_int   := mkCert 2  3  11  22 1679 110 2  255 0      6   0  false 20 52 20 51  6   0  0  0  0.
+Definition e_root  := mkCert 3  3  12  24 1679 111 2  255 1      4   0  false 0  0  20 52  6   0  0  0  0.
+Definition e_decoy := mkCert 3  3  13  26 1679 999 2  255 (-1)   6   0  false 0  0  20 52  6   0  0  0  0.
+
+Example supported_example : supported_path key_sig true [e_leaf; e_int] [e_decoy] e_root.
+Proof.
+  exists e_leaf, [e_int], e_int.
+  split; [reflexivity|]. split; [reflexivity|].
+  split.
+  { cbn. split; [|exact I]. split.
+    - unfold issued_by, is_ca, ku_certsign, not_revoked. cbn. repeat split; try discriminate; auto.
+    - unfold link_supported, aki_ok, ku_supported. cbn. split; [right; left; auto|left; discriminate]. }
+  split.
+  { left. split.
+    - unfold issued_by, is_ca, ku_certsign, not_revoked. cbn. repeat split; try discriminate; auto.
+    - unfold link_supported, aki_ok, ku_supported. cbn. split; [right; left; auto|left; discriminate]. }
+  split.
+  { cbn. unfold pathlen_ok, depth_below. cbn. repeat split; right; lia. }
+  split.
+  { repeat constructor; cbn; auto. }
+  split.
+  { intros _. split; cbn; auto. }
+  split.
+  { unfold eku_ok. cbn. discriminate. }
+  split; [reflexivity|].
+  constructor; [|constructor].
+  intros [[_ C]|[C _]]; vm_compute in C; discriminate C.
+Qed.
+
+Example supported_example_accepted :
+  accepted (validate key_sig true true [e_leaf; e_int] [e_decoy; e_root]) = true.
+Proof. vm_compute. reflexivity. Qed.
